@@ -13,8 +13,9 @@
   <bits>    = string of 0/1, `-` = empty, `nil` = no map
 -/
 import SonicSpec.Model.Loader
+import SonicSpec.Generated.Frames
 namespace SonicSpec.Driver.Loader
-open SonicSpec SonicSpec.Loader
+open SonicSpec SonicSpec.Loader SonicSpec.Generated.Frames
 
 def parseNat (s : String) : Option Nat :=
   if s.isEmpty then none else s.toNat?
@@ -99,8 +100,8 @@ def handlePcline (t : List Pcvalue) (probes : List Nat) : String :=
       s!"model={csv (probes.map one)}"
 
 def handleLoadone (textSize : Nat) (probes : List Nat) : String :=
-  let f := buildLoadFunc true [] textSize none none
-  match marshalPcdata f.unsafePoint, marshalPcdata f.stackMapIndex with
+  let f := buildLoadFunc loadFuncFacts true [] textSize none none
+  match f.unsafePoint.bind marshalPcdata, marshalPcdata f.stackMapIndex with
   | some u, some s =>
     let one (p : Nat) : String :=
       if p ≥ textSize then "x" else s!"{showRes (pcvalue u p)}:{showRes (pcvalue s p)}"
@@ -112,14 +113,17 @@ def hexOpt : Option Bytes → String
   | none => "PANIC"
 
 def handleLoadtabs (noPreempt : Bool) (textSize : Nat) (a l : Option (List Bool)) (t : List Pcvalue) : String :=
-  let f := buildLoadFunc noPreempt t textSize a l
+  let f := buildLoadFunc loadFuncFacts noPreempt t textSize a l
   let sm : Option Bitmap → String
     | some m => hexArg (stackMapBytes m)
     | none => "nil"
   match marshalPcdata f.pcsp with
   | none => "model=PANIC"       -- MarshalBinary of the pc-sp table panics: nothing is built
   | some pcsp =>
-    let parts := [hexArg pcsp, hexOpt (marshalPcdata f.unsafePoint),
+    let up := match f.unsafePoint with
+      | none => "nil"
+      | some t => hexOpt (marshalPcdata t)
+    let parts := [hexArg pcsp, up,
       hexOpt (marshalPcdata f.stackMapIndex), sm f.args, sm f.locals]
     s!"model={":".intercalate parts}"
 
